@@ -1102,6 +1102,9 @@ func (kcp *KCP) NoDelay(nodelay, interval, resend, nc int) int {
 		} else {
 			kcp.rx_minrto = IKCP_RTO_MIN
 		}
+		if kcp.rx_rto < kcp.rx_minrto {
+			kcp.rx_rto = kcp.rx_minrto
+		}
 	}
 	if interval >= 0 {
 		if interval > 5000 {
